@@ -62,7 +62,9 @@ func NewWorkspace() (*Workspace, error) {
 		return nil, err
 	}
 	w := &Workspace{Dir: dir, bins: map[string]string{}}
-	ov, err := instr.Build(Repo, filepath.Join(dir, "ov"), map[string]string{
+	// VERIF_REPO_SHADOW (development only: seeded-change trials that must not touch
+	// /repo): sources are read from that copy, the build still happens in /repo
+	ov, err := instr.BuildShadow(Repo, os.Getenv("VERIF_REPO_SHADOW"), filepath.Join(dir, "ov"), map[string]string{
 		"verifrt/verifrt.go": filepath.Join(VerifDir, "overlaysrc/verifrt/verifrt.go"),
 		"cmd/verif_init.go":  filepath.Join(VerifDir, "overlaysrc/cmd/verif_init.go"),
 	}, true)
